@@ -102,6 +102,61 @@ def sanitize(s, pick=0):
         return map_children(s, sub)
     return rec(s, 0)
 
+def _bounds(s):
+    """(degree bound, bound on the number of terms after expansion) of a RATIONAL spec"""
+    if not is_node_spec(s) or s[0] in ("Var", "Const"):
+        return (1 if is_node_spec(s) and s[0] == "Var" else 0), 1
+    if s[0] == "Sum" and len(s) == 2:
+        bs = [_bounds(c) for c in s[1]]
+        return max([b[0] for b in bs], default=0), max(1, sum(b[1] for b in bs))
+    if s[0] == "Product" and len(s) == 2:
+        bs = [_bounds(c) for c in s[1]]
+        t = 1
+        for b in bs:
+            t *= b[1]
+        return sum(b[0] for b in bs), t
+    if s[0] == "Quotient" and len(s) == 3:
+        a, b = _bounds(s[1]), _bounds(s[2])
+        return a[0] + b[0], a[1] * b[1]
+    if s[0] == "Power" and len(s) == 3:
+        n = const_value(s[2])
+        d, t = _bounds(s[1])
+        if isinstance(n, int) and not isinstance(n, bool):
+            return d * abs(n), t ** min(abs(n), 64)
+        return d, t
+    return 1, 1
+
+
+MAX_DEGREE = 10
+MAX_TERMS = 400
+
+
+def tame(s):
+    """Lower integer exponents until the expansion stays small (degree <= 10, <= 400 terms
+    per power); oversized products lose their last sum factors."""
+    if not is_node_spec(s):
+        return s
+    s = map_children(s, tame)
+    if s[0] == "Power" and len(s) == 3:
+        n = const_value(s[2])
+        if isinstance(n, int) and not isinstance(n, bool) and abs(n) > 1:
+            d, t = _bounds(s[1])
+            m = abs(n)
+            while m > 1 and (d * m > MAX_DEGREE or t ** m > MAX_TERMS):
+                m -= 1
+            if m != abs(n):
+                return ["Power", s[1], ["Const", "int", m if n > 0 else -m]]
+    if s[0] == "Product" and len(s) == 2:
+        ch = list(s[1])
+        while len(ch) > 1 and (_bounds(["Product", ch])[1] > 4 * MAX_TERMS
+                               or _bounds(["Product", ch])[0] > 2 * MAX_DEGREE):
+            i = max(range(len(ch)), key=lambda i: _bounds(ch[i])[1] * 100 + _bounds(ch[i])[0])
+            ch[i] = ["Var", "x"]
+            if all(_bounds(c) in ((1, 1), (0, 1)) for c in ch):
+                break
+        return ["Product", ch]
+    return s
+
 # }}}
 
 
@@ -170,7 +225,7 @@ def rat_expr(draw, depth=3, quot=True, negexp=True, mixed=True, np_consts=True,
             base = leaf()
         return ["Power", base, ["Const", "int", ex]]
 
-    return sanitize(rec(depth), d(st.integers(0, 6)))
+    return tame(sanitize(rec(depth), d(st.integers(0, 6))))
 
 
 def poly_expr(depth=3, max_exp=3, avoid_known=False, powpow=True, names=VARS,
